@@ -184,6 +184,10 @@ func (w *c10World) creatorFn(t *Task) {
 		if f.Inner {
 			// wait until f0's body has defined f1 (callers must find the name)
 			w.s.WaitUntil("inner-defined", w.innerDefined)
+			if !w.s.GateOpen(`"f1-defined"`) {
+				// the run will be discarded, but it must still run to its end (the gatekeeper opens the gates)
+				w.s.Rec("inner-never-defined", "", "", 0)
+			}
 			continue
 		}
 		id := "create" + strconv.Itoa(f.Idx)
@@ -201,7 +205,16 @@ func (w *c10World) creatorFn(t *Task) {
 //
 //go:norace
 func (w *c10World) innerDefined() bool {
-	return w.s.GateOpen(`"f1-defined"`)
+	if w.s.GateOpen(`"f1-defined"`) {
+		return true
+	}
+	// f0's body may end without getting that far (its context can end first): do not wait for ever
+	for _, t := range w.s.tasks {
+		if t.IsBody && t.state == tsDone {
+			return true
+		}
+	}
+	return false
 }
 
 // GateCtxProbe wraps gate-ctx!: records, when the body leaves the gate, whether its context had ended.
@@ -467,6 +480,10 @@ func (c10) Run(tp *Tape, opt RunOpt) *RunOut {
 				if ev.A == ":body-"+strconv.Itoa(f.Tok) {
 					traceN[i]++
 				}
+			}
+		case "inner-never-defined":
+			if out.Discard == "" {
+				out.Discard = "inner-future-never-defined"
 			}
 		case "gate-exit":
 			for i, f := range w.futs {
